@@ -273,18 +273,22 @@ def observe(gfa, pool, universe=()):
     obs["cc"] = t["cc"]
     obs["nd"], obs["nc"], obs["ni"], obs["nde"] = (t["n_dovetails"], t["n_containments"],
                                                    t["n_internals"], t["n_dead_ends"])
-    obs["dig"] = digest(obs)
+    obs["dig"] = digest(obs, pool)
     return obs
 
 
-def digest(obs):
-    """Order-insensitive digest of an observation (line identity = written text)."""
+def digest(obs, pool):
+    """Order-insensitive digest of an observation (line identity = written text,
+    independent of pool numbering, so digests of different traces are comparable)."""
     import hashlib, json
     ls = obs["lines"]
+    def rid(p):
+        r = pool.items[p - 1]
+        return json.dumps([r["rt"], r["name"], r["refs"], r["f"], r["tags"]], sort_keys=True)
     def pid(i):
-        return ls[i - 1]["p"] if i >= 1 else i
+        return rid(ls[i - 1]["p"]) if i >= 1 else str(i)
     canon = sorted(
-        [l["p"], l["virt"], l["own"],
+        [rid(l["p"]), l["virt"], l["own"],
          sorted([k, pid(i)] for k, i in l["fwd"]),
          sorted([k, sorted(pid(i) for i in ids)] for k, ids in l["br"]),
          l["lf"]] for l in ls)
